@@ -120,6 +120,47 @@ func runC10Child(res *lib.Result, tier string, seed int64, args []string) error 
 	root := lib.NewRng(uint64(seed))
 	qs := c10Queries()
 	t0 := c10Files["main.lua"]
+	// every return path of every notification handler gives the request mutex back: document events about files the
+	// server does not handle (not Lua; taken out of the analysis by a rule) must leave it answering
+	{
+		ldir := lib.ScratchDir("c10lock")
+		lib.WriteWorkspace(ldir, map[string]string{"main.lua": "local x = 1\nprint(x)\n", "notes.txt": "some notes\n", "gen/x.lua": "local g = 1\nprint(g)\n"})
+		o := lib.AllChecksOptions()
+		o["IgnoreFileOrDir"] = []string{"gen/"}
+		sess, err := lib.StartSession(ldir, o)
+		if err != nil {
+			os.RemoveAll(ldir)
+			return err
+		}
+		sess.Timeout = 10 * time.Second
+		sess.DidOpen("main.lua", "local x = 1\nprint(x)\n")
+		steps := []struct {
+			what string
+			do   func()
+		}{
+			{"didOpen notes.txt (not a Lua file)", func() { sess.DidOpen("notes.txt", "some notes\n") }},
+			{"didChange notes.txt", func() { sess.DidChange("notes.txt", []lib.ContentChange{{Text: "other notes\n"}}) }},
+			{"didSave notes.txt", func() { sess.DidSave("notes.txt", "other notes\n") }},
+			{"didClose notes.txt", func() { sess.DidClose("notes.txt") }},
+			{"didChangeWatchedFiles notes.txt", func() { sess.Watched(map[string]int{"notes.txt": 2}) }},
+			{"didOpen gen/x.lua (IgnoreFileOrDir gen/)", func() { sess.DidOpen("gen/x.lua", "local g = 1\nprint(g)\n") }},
+			{"didChange gen/x.lua", func() { sess.DidChange("gen/x.lua", []lib.ContentChange{{Text: "local g = 2\nprint(g)\n"}}) }},
+			{"didSave gen/x.lua", func() { sess.DidSave("gen/x.lua", "local g = 2\nprint(g)\n") }},
+			{"didClose gen/x.lua", func() { sess.DidClose("gen/x.lua") }},
+		}
+		for _, st := range steps {
+			lib.Breadcrumb("C10 lock release: " + st.what + ", then hover on main.lua 1:6")
+			st.do()
+			if _, err := sess.Hover("main.lua", 1, 6); err != nil {
+				res.AddViolation("crash-or-timeout", fmt.Sprintf("after %s the server no longer answers (hover on main.lua: %v): a handler returned without releasing the request mutex", st.what, err), "workspace main.lua, notes.txt, gen/x.lua (IgnoreFileOrDir [\"gen/\"]); "+st.what+"; textDocument/hover main.lua 1:6", false)
+				break
+			}
+			res.Dist("lock-release-step")
+		}
+		res.Count("lock-release", true)
+		sess.Close()
+		os.RemoveAll(ldir)
+	}
 	// bulk file events: many files rewritten and announced in ONE didChangeWatchedFiles (and created /
 	// deleted in one): the worker pools of the re-analysis run while the coordinator stores results
 	for bulk := 0; bulk < 3; bulk++ {
